@@ -444,6 +444,61 @@ def plan_case(rng, kind, nmax, nops, families, cond_max=COND_MAX, allow_updates=
             "cols": [col_json(c) for c in cols], "ops": ops}
 
 
+def plan_ftgrow(rng, nmin, nmax, nupd):
+    """Forrest-Tomlin column-file memory management: strictly column-diagonally-dominant matrices (regular and well
+    conditioned by construction: |diagonal| in [3,5], off-diagonal column sums < 2.4), many singleton columns so that the
+    column file of U starts small, and a long history WITHOUT re-loads in which replacement columns are denser than the
+    columns they replace: a column is first replaced by a slightly longer one (it moves to the end of the column file) and
+    then by a much longer one (it must grow in place at the end of the file), hot columns grow step by step, so that
+    forestReMaxCol / forestPackColumns / forestMinColMem run.  The harness applies the refactorization triggers of
+    SPxBasisBase (200 updates, memory, fill, non-zeros), so the history stays within what the solver does."""
+    n = rng.randint(nmin, nmax)
+
+    def mkcol(piv, nnz):
+        col = [F(0)] * n
+        col[piv] = F(rng.choice([-1, 1]) * (24 + rng.randint(0, 16)), 8)
+        k = max(0, min(nnz, n - 1))
+        if k:
+            rmax = max(1, 150 // k)
+            for i in rng.sample([i for i in range(n) if i != piv], k):
+                col[i] = F(rng.choice([-1, 1]) * rng.randint(1, min(rmax, 40)), 64)
+        return col
+
+    dens = rng.choice([0.3, 0.5, 0.8])
+    cols = [mkcol(j, rng.randint(1, 3) if rng.random() < dens else 0) for j in range(n)]
+    ops = [["LOAD"]]
+    hot = rng.sample(range(n), min(n, rng.randint(1, 3)))
+    hotlen = {h: 2 for h in hot}
+    nu = 0
+
+    def chg(idx, nnz):
+        col = mkcol(idx, nnz)
+        cj = {i: v for i, v in enumerate(col) if v != 0}
+        ops.append(["SRS", sv_json(cj), "ref"])
+        ops.append(["CHG", idx, "1", sv_json(cj)])
+        ops.append([rng.choice(["SR", "SR", "SRS", "SL"]), sv_json(gen_rhs(rng, n, "D", rng.choice(["dense", "dense", "sparse"])))])
+
+    while nu < nupd:
+        k = rng.random()
+        if k < 0.45:
+            x = rng.randrange(n)
+            chg(x, rng.randint(2, 5))
+            chg(x, rng.randint(max(3, n // 3), n - 1))
+            nu += 2
+        elif k < 0.7:
+            h = rng.choice(hot)
+            chg(h, hotlen[h])
+            hotlen[h] += rng.randint(1, 4)
+            if hotlen[h] > n - 1:
+                hotlen[h] = 2
+            nu += 1
+        else:
+            chg(rng.randrange(n), rng.randint(1, 8))
+            nu += 1
+    return {"kind": "D", "n": n, "utype": 1, "mark": fstr(rng.choice(MARKOWITZ)), "family": "ft-column-growth", "expect": "regular",
+            "track": False, "cols": [col_json(c) for c in cols], "ops": ops}
+
+
 def plan_singular(rng, kind, nmax, families):
     n = rng.randint(1, nmax)
     fam = rng.choice(families)
@@ -661,6 +716,7 @@ def walk_case(ck, cid, c, obs, Q, pending):
             Q.q(("cond", cid, what), "COND", "cur", "N", d, COND_MAX)
 
     certify("load")
+    track = c.get("track", True)      # False: the reference inverse is recomputed only at the end of the history
     fresh = True            # no update since the last (re)factorization
     nupd = 0
     refs = []               # results of the preceding single reference solves, in order
@@ -774,12 +830,14 @@ def walk_case(ck, cid, c, obs, Q, pending):
                     close_query(d[k], r, k, "CHG" + mode)
             refs = []
             # the specification state changes
-            w = mat_vec(binv, dense(col, n))
-            binv = update_inverse(binv, idx, w)
+            if track:
+                w = mat_vec(binv, dense(col, n))
+                binv = update_inverse(binv, idx, w)
             cur[idx] = dense(col, n)
             Q.vec("c", [v * DB for v in dense(col, n)])
             Q.raw("CHANGE %d c" % idx)
-            certify("update")
+            if track:
+                certify("update")
             ck.count("update:refac=%s" % d.get("refac"))
             if d.get("status") != "OK":
                 viol("update-status-%s:%s:%s" % (d.get("status"), kind, upd),
@@ -793,6 +851,12 @@ def walk_case(ck, cid, c, obs, Q, pending):
                 fresh = True
                 nupd = 0
             ck.evaluated((cid, oi))
+    if not track:
+        st, binv = invert(cur)
+        if st == "regular":
+            certify("final")
+        else:
+            ck.count("reference:final-state-singular")
     ck.count("family:" + c["family"])
     ck.count("dim:%02d-%02d" % (n // 10 * 10, n // 10 * 10 + 9))
 
